@@ -138,7 +138,7 @@ impl Exec {
                 with(|w| {
                     w.root_alive = true;
                     let n = w.nodes.len() as u32;
-                    self.cap = 400 + 10 * n;
+                    self.cap = 400 + 10 * n + if self.plan.max_yields < 100_000 { 3 * self.plan.max_yields } else { 0 };
                 });
             }
             Err(p) => {
@@ -363,6 +363,11 @@ impl Exec {
                         Caught::Deadlock => {
                             w.emit(Ev::Caught { whence: "root poll: self-deadlock" });
                             w.flag("c01.deadlock", || "the combinator re-locked its readiness lock while holding it".into());
+                        }
+                        Caught::Overflow => {
+                            w.emit(Ev::Caught { whence: "root poll: endless loop" });
+                            let n = crate::leaf::LOG_LIMIT;
+                            w.flag_current("livelock", || format!("a poll of the combinator kept polling children without returning (more than {n} events in one run)"));
                         }
                         Caught::Other(m) => {
                             w.emit(Ev::Caught { whence: "root poll: panic" });
